@@ -304,7 +304,7 @@ theorem removeColumn_inv (t t' : Table) (name : String) (h : t.Inv) (hs : t.remo
     simp only at hs
     obtain ⟨c, hc, hs⟩ := bind_ok hs
     have hc := getIdx_ok hc
-    by_cases ha : (c.action == .add) = true
+    by_cases ha : (c.action == .add || c.action == .rename) = true
     · rw [if_pos ha] at hs
       obtain ⟨t2, h2, hs⟩ := bind_ok hs
       let t1 : Table := { t with cols := t.cols.eraseIdx id,
